@@ -93,7 +93,11 @@ def plan(tier, seed):
     if tier == "thorough":
         items = [it for it in items if it[0] != "d3" ]  # cross-group depth-3 slice left to C01
     meta["exhaustive"] = True
-    return {"items": items, "meta": meta}
+    from mc.gen import atoms as A
+
+    first = [("one", i) for (i,) in A.depth1()]
+    meta["first_use_states_in_pristine_processes"] = len(first)
+    return {"items": items, "pristine_items": first, "meta": meta}
 
 
 def work(item):
